@@ -213,6 +213,9 @@ def gen_rich(rng, P, serial=0):
     return [rng.choice(ids + ["sX"]) for _ in range(rng.choice([1, 1, 2, 3]))]
 
   def text(parent):
+    ks = doc["N"][parent - 1]["kids"]
+    if ks and doc["N"][ks[-1] - 1]["kind"] == "text":
+      return ks[-1]                   # two adjacent text nodes would be one text node in XML
     tagno[0] += 1
     return add(doc, "text", parent, tag="T%d" % tagno[0])
 
